@@ -583,3 +583,142 @@ PROPS.update({
                             "not iterate an interval (iterating isize::MIN..=isize::MAX is a performance matter, out of scope)",
                             "TLC, Json/IOUtils, harness/src/domops.rs projection (Interval/Sparse -> window coordinates)"]},
 })
+
+
+# ----------------------------------------------------------------------------- CLP(FD): C16 C17 C04
+
+FD_INVS = ["Sound", "AcyclicInv", "FdStoreWf", "UserBalance", "LabelExact", "EmitCase"]
+
+
+def fd_mc(ctx, name, consts):
+    c = {"K": "4", "Sched": "{0, 1}", "Tag": '"%s"' % name, "NVars": "2", "MaxCons": "1", "MaxEq": "1", "Rich": "FALSE"}
+    c.update(consts)
+    return mc(ctx, name, "MC_FD", c, FD_INVS, {"GoalsAfter": "FdGoalsAfter", "Vals": "FdVals"}, workers=14, timeout=7000)
+
+
+def fd_cases_from_mc(ctx, res, prefix, nvars, stride=1):
+    """MC_FD behaviours -> query programs (when every variable got a domain) and FD store cases."""
+    out, seen = [], set()
+    for n, c in enumerate(res["cases"]):
+        key = json_key(c["ops"])
+        if key in seen:
+            continue
+        seen.add(key)
+        if len(seen) % stride:
+            continue
+        vs = list(range(1, nvars + 1))
+        dommed = set()
+        for op in c["ops"]:
+            if op[0] == "dom":
+                dommed |= gen.vars_in(op[1])
+        out.append({"id": "%s-%s-s%d" % (ctx["prop"], prefix, n), "kind": "store", "fd": True, "vars": vs,
+                    "win": [-3, 3], "k": 0, "ops": c["ops"]})
+        if gen.vars_in(c["ops"]) <= dommed:
+            out.append({"id": "%s-%s-q%d" % (ctx["prop"], prefix, n), "kind": "program", "mode": "query",
+                        "qvars": sorted(gen.vars_in(c["ops"])), "body": c["ops"], "after": 1})
+    return out
+
+
+def json_key(x):
+    import json
+    return json.dumps(x, sort_keys=True)
+
+
+def fd_random(ctx, n, prefix, scheds=(0,)):
+    rng = ctx["rng"]
+    out = []
+    for i in range(n):
+        nv = rng.randint(1, 4)
+        lo, hi = rng.choice([(-3, 3), (0, 5), (-6, 6), (1, 4)])
+        body = gen.fd_program(rng, nv, rng.randint(1, 4), lo, hi)
+        for k in scheds:
+            out.append({"id": "%s-%s-%d-k%d" % (ctx["prop"], prefix, i, k), "kind": "program", "mode": "query",
+                        "qvars": list(range(1, nv + 1)), "body": body, "sched": k, "after": 1})
+    return out
+
+
+def plan_fd(ctx):
+    if ctx["tier"] == "quick":
+        r = fd_mc(ctx, "fd2", {})
+        add(ctx, fd_cases_from_mc(ctx, r, "m", 2, stride=16))
+    else:
+        r = fd_mc(ctx, "fd2", {"Rich": "TRUE", "Sched": "{0, 1, 5}"})
+        add(ctx, fd_cases_from_mc(ctx, r, "m", 2))
+        r = fd_mc(ctx, "fd2c", {"MaxCons": "2", "K": "5"})
+        add(ctx, fd_cases_from_mc(ctx, r, "mc", 2, stride=3))
+        r = fd_mc(ctx, "fd3", {"NVars": "3", "K": "4", "MaxEq": "0", "Sched": "{0}"})
+        add(ctx, fd_cases_from_mc(ctx, r, "m3", 3, stride=3))
+    add(ctx, fd_random(ctx, T(ctx, 500, 8000), "r", scheds=(0, 1, 2)))
+
+
+FD_ASSUME = ["integer window -3..3 (flow A) / -6..6 (random); <= 3 variables exhaustive, <= 4 random",
+             "every FD operand gets a domain before labelling (well-formed programs)",
+             "TLC, Json/IOUtils, harness projectors; brute-force solutions are TLA+ set comprehensions (Store.SatGoal)"]
+FD_RULE = ("exhaustive: every order of posting <= 1 domain per variable (interval and sparse, positive, negative, mixed "
+           "sign, singleton), <= MaxCons constraints of every kind with every operand aliasing pattern over the variables "
+           "and constants, <= 1 equation (incl. a list unification binding two FD variables at once), under schedule "
+           "indices Sched (MC_FD); each behaviour is executed step by step on State (propagation soundness per step) and "
+           "as a query (answers against brute force); random: <= 4 variables, <= 4 constraints, windows up to -6..6, under "
+           "forced constraint schedules.  Non-trivial: the program has at least one FD constraint.")
+FD_TAGS = {"ltefd", "ltfd", "neqfd", "plusfd", "minusfd", "timesfd", "distinctfd"}
+PROPS.update({
+    "C16": {"plan": plan_fd, "reasons": {"invented_answer", "answer_not_reified"},
+            "rule": FD_RULE, "nontrivial": lambda c: bool(FD_TAGS & vlib.goal_tags(c)), "assumptions": FD_ASSUME},
+    "C17": {"plan": plan_fd, "reasons": {"missing_answer", "wrong_multiplicity", "fd_solution_lost", "fd_wrong_failure"},
+            "rule": FD_RULE, "nontrivial": lambda c: bool(FD_TAGS & vlib.goal_tags(c)), "assumptions": FD_ASSUME},
+})
+
+
+# ----------------------------------------------------------------------------- CLP(Z): C19
+
+def z_mc(ctx, name, consts):
+    c = {"K": "2", "Sched": "{0}", "Tag": '"%s"' % name, "MaxCons": "1", "MaxEq": "1", "Rich": "FALSE"}
+    c.update(consts)
+    return mc(ctx, name, "MC_Z", c, ["Den", "AcyclicInv", "UserBalance", "ZResolved", "EmitCase"],
+              {"GoalsAfter": "ZGoalsAfter", "Vals": "ZVals"}, workers=14, timeout=7000)
+
+
+def plan_c19(ctx):
+    if ctx["tier"] == "quick":
+        r = z_mc(ctx, "z", {})
+        stride = 1
+    else:
+        r = z_mc(ctx, "z", {"K": "3", "MaxEq": "2", "Rich": "TRUE"})
+        stride = 2
+    seen = set()
+    for n, c in enumerate(r["cases"]):
+        key = json_key(c["ops"])
+        if key in seen:
+            continue
+        seen.add(key)
+        if len(seen) % stride:
+            continue
+        add(ctx, [{"id": "C19-m-s%d" % n, "kind": "store", "vars": [1, 2, 3], "k": 0, "ops": c["ops"]}])
+        if n % 3 == 0:
+            add(ctx, [{"id": "C19-m-q%d" % n, "kind": "program", "mode": "query", "qvars": [1, 2, 3],
+                       "body": c["ops"], "after": 1}])
+    rng = ctx["rng"]
+    for i in range(T(ctx, 600, 10000)):
+        nv = rng.randint(1, 4)
+        vs = list(range(1, nv + 1))
+        o = lambda: ["var", rng.choice(vs)] if rng.random() < 0.65 else ["num", rng.randint(-4, 4)]
+        goals = [[rng.choice(["plusz", "timesz"]), o(), o(), o()] for _ in range(rng.randint(1, 3))]
+        for _ in range(rng.randint(0, 3)):
+            goals.append(["eq", ["var", rng.choice(vs)], ["num", rng.randint(-4, 4)]] if rng.random() < 0.8
+                         else ["eq", ["var", rng.choice(vs)], ["var", rng.choice(vs)]])
+        rng.shuffle(goals)
+        add(ctx, [{"id": "C19-r-s%d" % i, "kind": "store", "vars": vs, "k": 0, "ops": goals},
+                  {"id": "C19-r-q%d" % i, "kind": "program", "mode": "query", "qvars": vs, "body": goals, "after": 1}])
+
+
+PROPS.update({
+    "C19": {"plan": plan_c19, "reasons": R_STORE | R_ANSWERS | {"z_constraints_differ", "panic"},
+            "rule": "exhaustive: plusz/timesz with every operand pattern over three variables and small integers "
+                    "(aliasing, zero multipliers, non-divisible products), one (thorough: two) binding(s) v == n or "
+                    "X == Y in every order (MC_Z); each behaviour step by step on State (success flag, substitution, set of "
+                    "suspended constraints) and as a query; random chains of <= 3 constraints and <= 3 bindings.  "
+                    "Non-trivial: every case.",
+            "nontrivial": lambda c: True,
+            "assumptions": ["operands and results within -4..6 (flow A window); isize overflow out of scope",
+                            "TLC, Json/IOUtils, harness projectors"]},
+})
